@@ -112,14 +112,14 @@ func TestVerifC07Avc(t *testing.T) {
 		{name: "avc_AVCLevel_String", widths: []int{8}, call: func(a []int64) vSx { return vS(AVCLevel(a[0]).String()) }},
 	}
 	fams := []*vC07Fam{
-		{name: "avc-dense-nalus", dec: "avc.sample4", cost: "avc.sample4", build: func(n int) []byte {
+		{name: "avc-dense-nalus", dec: "avc.sample4", cost: "avc.sample4", costMax: 1 << 20, build: func(n int) []byte {
 			var out []byte
 			for len(out)+5 <= n {
 				out = append(out, 0, 0, 0, 1, 0x65)
 			}
 			return out
 		}},
-		{name: "avc-record-many-pps", dec: "avc.record", cost: "avc.record", build: func(n int) []byte {
+		{name: "avc-record-many-pps", dec: "avc.record", cost: "avc.record", costMax: 1 << 20, build: func(n int) []byte {
 			out := []byte{1, 100, 0, 31, 0xff, 0xe0, 255}
 			for i := 0; i < 255; i++ {
 				l := (n-7)/255 - 2
